@@ -34,18 +34,23 @@ def iterOf? (j : Json) : Option Iter := do
   let tret ← jInt? (← jField? j "tret")
   some { ver, now, dur, pressure, wake, lag, gone, required, patchInit, patchMid, patched, tp, tret }
 
-/-- `{"event": {...}}` or `{"retire": t}` -/
+/-- `{"event": {...}}`, `{"retire": t}` or `{"background": [ver, t]}` -/
 def stepOf? (j : Json) : Option Step :=
-  match jField? j "event", jField? j "retire" with
-  | some e, none => (iterOf? e).map Step.event
-  | none, some t => (jInt? t).map Step.retire
-  | _, _ => none
+  match jField? j "event", jField? j "retire", jField? j "background" with
+  | some e, none, none => (iterOf? e).map Step.event
+  | none, some t, none => (jInt? t).map Step.retire
+  | none, none, some b => do
+      match ← jArr? b with
+      | [v, t] => some (Step.background (← verOf? v) (← jInt? t))
+      | _ => none
+  | _, _, _ => none
 
 def stateJson (s : WState) : Json :=
   Json.mkObj [("expected", optJson verJson s.expected), ("deadline", optJson intJson s.deadline)]
 
 def stageStr : Stage → String
   | .indexing => "indexing" | .watching => "watching" | .spawning => "spawning"
+  | .barrier => "barrier" | .changing => "changing"
 
 def outcomeJson (o : Outcome) : Json :=
   Json.mkObj [
@@ -64,6 +69,7 @@ def replay (T idle : Int) : Cfg → List Step → List Json
       | .event it => Json.mkObj [("ok", .bool (okStep idle c st)), ("outcome", outcomeJson (outcomeAt T c it)),
                                  ("after", stateJson c'.s)]
       | .retire _ => Json.mkObj [("ok", .bool (okStep idle c st)), ("retired", .bool true), ("after", stateJson c'.s)]
+      | .background _ _ => Json.mkObj [("ok", .bool (okStep idle c st)), ("background", .bool true), ("after", stateJson c'.s)]
     rec_ :: replay T idle c' rest
 
 def handle : DrvHandler := fun op args =>
